@@ -138,11 +138,18 @@ class Operand(ABC):
         old_value = self.value
         self.value = self.value.resolve(symbol_table)
 
+        if self.is_immediate() and self.instruction.is_16_bit and self.value.is_numeric():
+            self.value.size_hint = 4
+
         if not self.is_unknown():
             return self
 
-        if self.value.is_numeric() and (self.value.is_direct() or old_value.is_explicit_direct()):
+        if self.value.is_numeric() and not old_value.is_explicit_extended() and \
+                (self.value.is_direct() or old_value.is_explicit_direct()):
             return DirectOperand(self.operand_string, self.instruction, DirectNumericValue(self.value.int))
+
+        if self.value.is_address() and old_value.is_explicit_direct():
+            return DirectOperand(self.operand_string, self.instruction, value=self.value)
 
         return ExtendedOperand(self.operand_string, self.instruction, value=self.value)
 
@@ -453,7 +460,9 @@ class ExtendedOperand(Operand):
             )
         return CodePackage(
             op_code=NumericValue(self.instruction.mode.ext),
-            additional=self.value,
+            additional=NumericValue(
+                -self.value.int if self.value.is_negative() else self.value.int, size_hint=4
+            ) if self.value.is_numeric() else self.value,
             size=self.instruction.mode.ext_sz,
             max_size=self.instruction.mode.ext_sz,
         )
